@@ -10,8 +10,9 @@ CLAIMED = {
  "C01": dict(
    text="Proof. Unbounded theorem C01_explore_sound (verified product-reachability checker) + per generated program a kernel-checked theorem "
         "case_ok: for ALL input sequences of ALL lengths the parsed VHDL the compiler emitted on this run has the same output trace as the "
-        "reference coroutine semantics Coro.ref of the source program. The programs quantifier is sampled (fixed corpus + seeded generator), "
-        "inputs/schedules quantifier is proved.",
+        "reference coroutine semantics Coro.ref of the source program. All programs: C01_lower_correct proves, for EVERY program of a stated grammar (all constructs of the property except wait_for) and every input sequence, "
+        "that a Gallina model `lower` of the compiler's open-block lowering is trace-equivalent to the reference semantics; the model is tied to the real compiler by a second kernel-checked theorem per generated program "
+        "(emitted VHDL = lower p for all input sequences). The programs quantifier for the real compiler itself is sampled (fixed corpus + seeded generator), the inputs/schedules quantifier is proved.",
    technique="Rocq proof: verified reflective equivalence checker (explore_sound) applied per compiled program; reference semantics in Gallina",
    design_ref="DESIGN.md §6 C01, Appendix A"),
  "C14": dict(
